@@ -34,6 +34,9 @@ var vC06Docs = []vDoc{
 	// floats): whichever way the call goes, it must go that way as a whole
 	{Vec: []float32{3, 4}, Text: "gamma", Meta: map[string]interface{}{"s": "x", "f": math.NaN()}, Fail: "either:nan"},
 	{Vec: []float32{3, 4}, Text: "gamma", Meta: map[string]interface{}{"s": "y", "f": 1e300}, Fail: "either:huge"},
+	// a non-zero vector whose squared components underflow in float32 (its norm computes to
+	// 0): a cosine index may refuse it or not, but the call goes one way as a whole
+	{Vec: []float32{1e-30, 1e-30}, Text: "gamma", Meta: map[string]interface{}{"s": "x"}, Fail: "either:tinynorm"},
 }
 
 type vHybCfg struct {
@@ -106,7 +109,10 @@ func (s *vHybSys) Enabled() []vOp {
 			// AddWithID on an id that is still live: a valid one replaces the document
 			// (the new content, and only the new content, is findable: documents 2 and 3
 			// supply fewer modalities than 0 and 1), a failing one changes nothing
-			for _, di := range []int{2, 3, 4, 5} {
+			for di := range vC06Docs {
+				if di < 2 || (vC06Docs[di].Fail == "zero" && s.cfg.Metric != Cosine) {
+					continue
+				}
 				ops = append(ops, vOp{K: "AddWithID", A: int(id), B: di})
 			}
 			continue
@@ -130,6 +136,12 @@ func (s *vHybSys) Enabled() []vOp {
 	return ops
 }
 
+// vCloneMeta hands the code under test its own copy of a metadata map and remembers the
+// copy; vSpoilMeta, called after the Add returned, overwrites and extends every remembered
+// copy the way a caller that re-uses one map in an ingestion loop does. The map belongs to
+// the caller: what was indexed is what the map held when Add was called.
+var vHandedOut []map[string]interface{}
+
 func vCloneMeta(m map[string]interface{}) map[string]interface{} {
 	if m == nil {
 		return nil
@@ -138,7 +150,28 @@ func vCloneMeta(m map[string]interface{}) map[string]interface{} {
 	for k, v := range m {
 		out[k] = v
 	}
+	if len(vHandedOut) >= 64 {
+		vHandedOut = vHandedOut[:0] // call sites that never spoil
+	}
+	vHandedOut = append(vHandedOut, out)
 	return out
+}
+
+func vSpoilMeta() {
+	for _, m := range vHandedOut {
+		for k := range m {
+			switch m[k].(type) {
+			case string:
+				m[k] = "spoiled"
+			case bool:
+				m[k] = "spoiled"
+			default:
+				delete(m, k)
+			}
+		}
+		m["spoiled"] = "later"
+	}
+	vHandedOut = vHandedOut[:0]
 }
 
 func (s *vHybSys) Apply(op vOp, hist []vOp, check bool) {
@@ -161,6 +194,7 @@ func (s *vHybSys) Apply(op vOp, hist []vOp, check bool) {
 			id = uint32(op.A) + vIDBase
 			err = s.idx.AddWithID(id, vCopyVec(d.Vec), d.Text, vCloneMeta(d.Meta))
 		}
+		vSpoilMeta()
 		wantFail := s.willFail(d)
 		if strings.HasPrefix(d.Fail, "either:") {
 			wantFail = err != nil // not judged: the model follows the acknowledged outcome
@@ -569,6 +603,7 @@ func (s *vReaddSys) Apply(op vOp, hist []vOp, check bool) {
 			err = s.tidx.Add(id, vReaddTexts[op.B])
 		case s.midx != nil:
 			err = s.midx.Add(*NewMetadataNodeWithID(id, vCloneMeta(vReaddMeta[op.B])))
+			vSpoilMeta()
 		}
 		if err != nil {
 			if check {
